@@ -2,6 +2,7 @@ import Cirbo.Proofs.Passes
 import Cirbo.Proofs.RrgIdem
 import Cirbo.Proofs.MuoPost
 import Cirbo.Proofs.MdgPost
+import Cirbo.Proofs.MegPost
 /-!
 # C18 — Simplification passes achieve their stated effect; pipelines equal sequencing
 
@@ -11,10 +12,11 @@ import Cirbo.Proofs.MdgPost
 -- OBLIGATION: c18_pipe_operator_is_sequencing
 -- OBLIGATION: c18_cleanup_is_sequencing
 -- OBLIGATION: c18_mdg_no_two_gates_with_same_signature
+-- OBLIGATION: c18_meg_no_two_gates_with_same_truth_table
 -- OBLIGATION: c18_muo_no_double_negation
 -- OBLIGATION: c18_muo_no_buffer_operand_or_output
 -- OBLIGATION: c18_reduction_only_drops_repeated_rrg
--- PARTIAL: the postcondition of MergeEquivalentGates (no two non-input gates with the same truth table) is decided on every run by the search over the real passes plus the one-to-one model correspondence; its theorem is not proved yet. Idempotence and the pipeline theorems are stated for well-formed circuits (the C02 invariant plus right arities), which is what every public constructor produces.
+-- PARTIAL: every clause is proved, as partial correctness (whenever the pass returns) and for well-formed circuits (the C02 invariant plus accepted arities), which is what every public constructor produces; totality of the passes on such circuits and behaviour on malformed ones are decided by the correspondence.
 -/
 namespace Cirbo
 
@@ -70,6 +72,15 @@ theorem c18_mdg_no_two_gates_with_same_signature {c c' c'' : Circuit} (hw : WFS 
       signature g1.ty g1.ops = signature g2.ty g2.ops → g1 = g2 :=
   mdg_rrg_no_duplicates hw h h2
 
+/-- MergeEquivalentGates (the pass with its implied `RemoveRedundantGates()`): no two different
+non-input gates of the result have the same truth table (stated denotationally: agreeing under every
+valuation of the result; `get_gates_truth_table` lists exactly these values, C01). -/
+theorem c18_meg_no_two_gates_with_same_truth_table {c c' c'' : Circuit} (hw : WFS c) (har : ArOK c)
+    (h : meg c = .ok c') (h2 : rrg false c' = .ok c'') :
+    ∀ g1 ∈ c''.gates, ∀ g2 ∈ c''.gates, g1.ty ≠ GateType.INPUT → g2.ty ≠ GateType.INPUT →
+      (∀ b v, IsValB c'' b v → v g1.label = v g2.label) → g1 = g2 :=
+  meg_rrg_no_equivalent hw har h h2
+
 /-- MergeUnaryOperators (the pass with its implied `RemoveRedundantGates()`), on a circuit whose
 unary gates are all negations: no negation in the result has a negation as its operand. -/
 theorem c18_muo_no_double_negation {c c' c'' : Circuit} (hw : WFS c)
@@ -101,6 +112,7 @@ example : ((c18Example >>= rrg false >>= rrg false).toOption.map fun c => c.labe
 #print axioms c18_pipe_operator_is_sequencing
 #print axioms c18_cleanup_is_sequencing
 #print axioms c18_mdg_no_two_gates_with_same_signature
+#print axioms c18_meg_no_two_gates_with_same_truth_table
 #print axioms c18_muo_no_double_negation
 #print axioms c18_muo_no_buffer_operand_or_output
 #print axioms c18_reduction_only_drops_repeated_rrg
